@@ -29,9 +29,10 @@ VARIABLES tid, l,
   pre,         \* disk when the process was started
   startBad,    \* a recorder started although a journal existed
   refChanged,  \* a refused start-up modified a file
+  cdxgap,      \* between two appends the index on disk did not name exactly the response records on disk
   fin          \* [has, files, sz, cdx, cdxon, cdxhdr]     full projection at the end of a fault-free process
 
-mvars == <<tid, l, disk, jr, bef, curf, lastFault, sawFault, pre, startBad, refChanged, fin>>
+mvars == <<tid, l, disk, jr, bef, curf, lastFault, sawFault, pre, startBad, refChanged, cdxgap, fin>>
 
 Ev  == Batch[tid].ev
 Cur == Ev[l]
@@ -42,7 +43,8 @@ NoFin == [has |-> FALSE, files |-> [f \in FIds |-> <<>>], sz |-> [f \in FIds |->
           cdxon |-> FALSE, cdxhdr |-> TRUE]
 
 Lite(ms) == [i \in 1..Len(ms) |->
-               [ok |-> ms[i].s = "complete", len |-> ms[i].l, ty |-> ms[i].t, rid |-> ms[i].r, cid |-> ms[i].c]]
+               [ok |-> ms[i].s = "complete", len |-> ms[i].l, ty |-> ms[i].t, rid |-> ms[i].r, cid |-> ms[i].c,
+                h |-> ms[i].h]]
 
 Has(ch, f) == \E i \in 1..Len(ch) : ch[i].f = f
 Ent(ch, f) == ch[CHOOSE i \in 1..Len(ch) : ch[i].f = f]
@@ -78,7 +80,7 @@ MInit ==
   /\ tid \in 1..NT /\ l = 1
   /\ disk = [f \in FIds |-> <<>>] /\ jr = [f \in FIds |-> JAbs]
   /\ bef = <<>> /\ curf = 99 /\ lastFault = NoFault /\ sawFault = FALSE
-  /\ pre = [f \in FIds |-> <<>>] /\ startBad = FALSE /\ refChanged = FALSE
+  /\ pre = [f \in FIds |-> <<>>] /\ startBad = FALSE /\ refChanged = FALSE /\ cdxgap = FALSE
   /\ fin = NoFin
 
 MNext ==
@@ -99,6 +101,15 @@ MNext ==
      /\ pre' = IF e.e = "boot" THEN d2 ELSE pre
      /\ startBad' = (startBad \/ (e.e = "start" /\ e.jpre /\ ~e.refused))
      /\ refChanged' = (refChanged \/ (e.e = "start" /\ e.refused /\ d2 # pre))
+     \* Whenever write_record is entered no append is in flight: what is on disk then - what a process killed there
+     \* leaves behind - has one index line for each HTTP response record and no other.  (First process of the
+     \* execution only: a later one may find files of a run it does not continue.)
+     /\ cdxgap' = (cdxgap \/ (/\ e.e = "abegin" /\ e.cx /\ e.cq /\ ~sawFault /\ pre = [f \in FIds |-> <<>>]
+                               /\ \A f \in FIds : j2[f].st = "absent"
+                               /\ LET HR == {a \in AllMembers(d2, FIds) : d2[a[1]][a[2]].ok /\ d2[a[1]][a[2]].h} IN
+                                  ~(/\ Cardinality(HR) = Len(e.cr)
+                                    /\ \A a \in HR : \E j \in 1..Len(e.cr) : e.cr[j] = d2[a[1]][a[2]].rid
+                                    /\ \A j1, j2x \in 1..Len(e.cr) : j1 # j2x => e.cr[j1] # e.cr[j2x])))
      /\ fin' = IF e.e = "end" /\ e.hasfull /\ ~sawFault
                THEN [has |-> TRUE, files |-> FullFiles(e.full.files), sz |-> FullSizes(e.full.files),
                      cdx |-> FullLines(e.full.cdx), cdxon |-> e.full.cdxon, cdxhdr |-> e.full.cdxhdr]
@@ -154,6 +165,7 @@ L == fin.cdx
 HdrBad(c) == \E a \in RespMembers(D, FIds) :
                 M(a).hc = c /\ \E j \in LinesOf(D, L, a) : ~(L[j].st = M(a).st /\ L[j].mi = M(a).mi)
 C07Bad ==
+  (IF cdxgap THEN {10} ELSE {}) \cup                       \* IndexCompleteBetweenAppends
   IF ~(fin.has /\ fin.cdxon) THEN {} ELSE
   {i \in 1..9 :
      \* status and media type are those of the response the server sent (the final one, not an interim one; of its own
